@@ -480,6 +480,32 @@ def prove_candidates(src_root, ex: Explorer):
     ex.run(atomic, 'set-parent-atomic')
 
 
+def prove_registered_before_check(src_root, ex: Explorer):
+    """_on_peer_connection_initialized: the new peer is among the registered distributed peers BEFORE the child check runs (which suspends
+    on the welcome messages): the CLOSED handler finds a peer through that list (C13.closed.cleanup), so a child whose connection breaks
+    during the welcome write is only removed again if it was registered first - INV-tree: every child is a registered peer."""
+    def path(ctx: Ctx):
+        it = mk(src_root, ctx)
+        t = Tree(it, ctx, parent=False, n_children=0, extra=False)
+        conn = Stub('incoming distributed connection', username=sstr(ctx, 'newcomer'), connection_type='D',
+                    state=enum(it, CONN, 'ConnectionState', 'CONNECTED'))
+        seen = []
+
+        def check(it2, f, a, k):
+            def body(it3):
+                peer = a[1]
+                seen.append(any(x is peer for x in t.dn.attrs['distributed_peers']))
+                # the child is admitted, then the write of the welcome messages fails: the connection is CLOSED when the check returns
+                t.dn.attrs['children'].append(peer)
+                conn.attrs['state'] = enum(it3, CONN, 'ConnectionState', 'CLOSED')
+            return A.SimpleAwaitable(it2.aio, '_check_if_new_child', body)
+        it.hooks[f'{DN}:DistributedNetwork._check_if_new_child'] = check
+        run(it, it.getattr(t.dn, '_on_peer_connection_initialized'), Stub('event', connection=conn, requested=False))
+        ctx.prove('C13.initialized.registered-before-child-check', seen == [True] and t.inv_tree(),
+                  f'registered when the child check ran: {seen}; afterwards every child is a registered peer: {t.inv_tree()}')
+    ex.run(path, 'registered-before-check')
+
+
 def prove_peer_lookup(src_root, ex: Explorer):
     """get_distributed_peer(connection): THE peer object of that connection - a user can have several distributed connections (one it
     opened, one we opened), so the lookup must compare the connection, not only the user name; None when there is none."""
@@ -540,7 +566,7 @@ def prove_fanout_relies(src_root, ex: Explorer):
 
 
 def items(src_root, tier):
-    return [('reset', None), ('fanout', None), ('peer-lookup', None), ('candidates', None), ('adv', None), ('check_parent', None), ('branch', 'level'), ('branch', 'root'), ('unset', None), ('admit', None),
+    return [('registered', None), ('reset', None), ('fanout', None), ('peer-lookup', None), ('candidates', None), ('adv', None), ('check_parent', None), ('branch', 'level'), ('branch', 'root'), ('unset', None), ('admit', None),
             ('max_children', None), ('session', None)]
 
 
@@ -557,6 +583,8 @@ def run_item(src_root, item, tier):
             prove_reset(src_root, ex)
         elif kind == 'peer-lookup':
             prove_peer_lookup(src_root, ex)
+        elif kind == 'registered':
+            prove_registered_before_check(src_root, ex)
         elif kind == 'adv':
             prove_adv(src_root, ex)
         elif kind == 'check_parent':
